@@ -125,7 +125,6 @@ package tbtc
 //@   ensures [length] windowIndex > 0 ==> len(result) == 1 + ite(windowIndex % 4 == 0, 3, 0) + ite(rngFloat(wrap_i64(@be64(seed[0:8])), 0) < coordinationHeartbeatProbability, 1, 0)
 //@   ensures [every-fourth-window] windowIndex > 0 && windowIndex % 4 == 0 ==> result[1] == ActionDepositSweep && result[2] == ActionMovedFundsSweep && result[3] == ActionMovingFunds
 //@   ensures [heartbeat-last] windowIndex > 0 && rngFloat(wrap_i64(@be64(seed[0:8])), 0) < coordinationHeartbeatProbability ==> result[len(result) - 1] == ActionHeartbeat
-//@   ensures coordinationHeartbeatProbability == 0.0625
 
 //@ func coordinationExecutor.getLeader
 //@   property C22
@@ -178,3 +177,61 @@ package tbtc
 //@ func coordinationExecutor.walletPublicKeyHash
 //@   property C24
 //@   pure
+
+// ---------------------------------------------------------------------------
+// C11: retry-loop block windows
+
+//@ ghost loopStart int
+//@ ghost lastSeenBlock int
+
+//@ func signingAttemptMaximumBlocks
+//@   property C11 C46
+//@   inline
+//@ func dkgAttemptMaximumBlocks
+//@   property C11
+//@   inline
+
+//@ const-invariant signing-attempt-window: signingAttemptMaximumBlocks() == signingAttemptAnnouncementDelayBlocks + signingAttemptAnnouncementActiveBlocks + signingAttemptMaximumProtocolBlocks + signingAttemptCoolDownBlocks && signingAttemptCoolDownBlocks >= 1
+//@   property C11
+//@ const-invariant dkg-attempt-window: dkgAttemptMaximumBlocks() == dkgAttemptAnnouncementDelayBlocks + dkgAttemptAnnouncementActiveBlocks + dkgAttemptMaximumProtocolBlocks + dkgAttemptCoolDownBlocks && dkgAttemptCoolDownBlocks >= 1
+//@   property C11
+
+// The attempt function and the done-check listener are the points where an
+// attempt's window becomes observable: their preconditions are the oracle.
+//@ assume func signingRetryLoop.start:signingAttemptFn
+//@   requires [attempt-number-n-window] arg0 != nil && arg0.number >= 1 && arg0.startBlock == ghost.loopStart + (arg0.number - 1) * signingAttemptMaximumBlocks() + signingAttemptAnnouncementDelayBlocks + signingAttemptAnnouncementActiveBlocks && arg0.timeoutBlock == arg0.startBlock + signingAttemptMaximumProtocolBlocks
+//@   requires [next-attempt-starts-after-timeout] arg0.timeoutBlock < ghost.loopStart + arg0.number * signingAttemptMaximumBlocks()
+//@   requires [announcement-not-passed-when-checked] ghost.lastSeenBlock < arg0.startBlock
+//@ assume func signingDoneCheckStrategy.listen
+//@   requires [listen-window] attemptNumber >= 1 && attemptTimeoutBlock == ghost.loopStart + (attemptNumber - 1) * signingAttemptMaximumBlocks() + signingAttemptAnnouncementDelayBlocks + signingAttemptAnnouncementActiveBlocks + signingAttemptMaximumProtocolBlocks
+//@ assume func signingRetryLoop.start:getCurrentBlockFn
+//@   modifies ghost.lastSeenBlock
+//@   ensures err == nil ==> ghost.lastSeenBlock == result0
+//@ assume func signingRetryLoop.start:waitForBlockFn
+//@   modifies ghost.now, ghost.ctxDone
+//@   ensures ghost.now >= old(ghost.now)
+//@   ensures forall c ref :: c in old(ghost.ctxDone) ==> c in ghost.ctxDone
+//@   ensures result == nil ==> ghost.now >= arg1 || arg0 in ghost.ctxDone
+
+//@ func signingRetryLoop.start
+//@   property C11
+//@   arith math
+//@   requires srl.attemptCounter == 0 && ghost.loopStart == srl.attemptStartBlock
+//@   modifies srl.attemptCounter, srl.attemptStartBlock, ghost.lastSeenBlock, ghost.now, ghost.ctxDone, alloc
+//@   loop 1 invariant srl.attemptCounter >= 0 && srl.attemptStartBlock == ghost.loopStart + ite(srl.attemptCounter >= 1, srl.attemptCounter - 1, 0) * signingAttemptMaximumBlocks()
+
+//@ assume func dkgRetryLoop.start:dkgAttemptFn
+//@   requires [attempt-number-n-window] arg0 != nil && arg0.number >= 1 && arg0.startBlock == ghost.loopStart + (arg0.number - 1) * dkgAttemptMaximumBlocks() + dkgAttemptAnnouncementDelayBlocks + dkgAttemptAnnouncementActiveBlocks && arg0.timeoutBlock == arg0.startBlock + dkgAttemptMaximumProtocolBlocks
+//@   requires [next-attempt-starts-after-timeout] arg0.timeoutBlock < ghost.loopStart + arg0.number * dkgAttemptMaximumBlocks()
+//@ assume func dkgRetryLoop.start:waitForBlockFn
+//@   modifies ghost.now, ghost.ctxDone
+//@   ensures ghost.now >= old(ghost.now)
+//@   ensures forall c ref :: c in old(ghost.ctxDone) ==> c in ghost.ctxDone
+//@   ensures result == nil ==> ghost.now >= arg1 || arg0 in ghost.ctxDone
+
+//@ func dkgRetryLoop.start
+//@   property C11
+//@   arith math
+//@   requires drl.attemptCounter == 0 && ghost.loopStart == drl.attemptStartBlock
+//@   modifies drl.attemptCounter, drl.attemptStartBlock, ghost.now, ghost.ctxDone, alloc
+//@   loop 1 invariant drl.attemptCounter >= 0 && drl.attemptStartBlock == ghost.loopStart + ite(drl.attemptCounter >= 1, drl.attemptCounter - 1, 0) * dkgAttemptMaximumBlocks()
